@@ -252,6 +252,24 @@ func propC02(c *Ctx) {
 			c.Check(atoms[a], w5, FuncName(fn)+"/exit-tests:"+a, c.P.Pos(fn.Pos()), "loop condition reads "+a, "main loop no longer tests "+a+" before exiting")
 		}
 	}
+	w6 := c.Rule("W6", "K3 closed call-site table", "every wake-up of the protocol goroutine is one of the reviewed sites", 12)
+	A := "(*sleep.Waker).Assert"
+	c.CheckCallers(w6, []string{A}, []CallerSpec{
+		{Fn: "(*tcp.endpoint).HandlePacket", Target: A, Args: []string{"&$0.newSegmentWaker"}, Guards: []string{"(*tcp.segment).parse(tcp.newSegment($1, $2, $3))", "(*tcp.segmentQueue).enqueue(&$0.segmentQueue, tcp.newSegment($1, $2, $3))"}, Why: "a parsed segment that was queued wakes the worker"},
+		{Fn: "(*tcp.endpoint).Shutdown", Target: A, Args: []string{"&$0.sndCloseWaker"}, Why: "the FIN request wakes the worker"},
+		{Fn: "(*tcp.endpoint).Write", Target: A, Args: []string{"&$0.sndWaker"}, Why: "queued data wakes the worker when the writer could not process it inline"},
+		{Fn: "(*tcp.endpoint).connect", Target: A, Args: []string{"&$0.sndWaker"}, Why: "restored endpoints with queued data"},
+		{Fn: "(*tcp.endpoint).handleSegments", Target: A, Args: []string{"&$0.newSegmentWaker"}, Guards: []string{"!(*tcp.segmentQueue).empty(&$0.segmentQueue)", "phi{false | true}"}, Why: "a budget-limited drain that left segments queued re-arms itself: without it the remaining segments wait for the next arrival"},
+		{Fn: "(*tcp.endpoint).notifyProtocolGoroutine", Target: A, Args: []string{"&$0.notificationWaker"}, Why: "notifications (close, MTU, window reopening, ...)"},
+		{Fn: "(*tcp.endpoint).protocolListenLoop", Target: A, Args: []string{"&$0.newSegmentWaker"}, Why: "listen loop: same re-arm after a budget-limited drain"},
+		{Fn: "(*tcp.endpoint).protocolMainLoop", Target: A, Args: []string{"&$0.newSegmentWaker"}, Why: "segments that arrived during the handshake are processed once the loop starts"},
+		{Fn: "(*tcp.endpoint).protocolMainLoop$4$1", Target: A, Args: []string{"^^&new(sleep.Waker)"}, Why: "close timer"},
+		{Fn: "(*tcp.handshake).execute$1", Target: A, Args: []string{"^&new(sleep.Waker)"}, Guards: []string{}, Why: "SYN resend timer callback"},
+		{Fn: "(*tcp.handshake).processSegments", Target: A, Args: []string{"&$0.ep.newSegmentWaker"}, Guards: []string{"!(*tcp.segmentQueue).empty(&$0.ep.segmentQueue)"}, Why: "handshake drain: re-arm when segments remain"},
+		{Fn: "(*tcp.timer).init$1", Target: A, Args: []string{"^$1"}, Guards: []string{}, Why: "retransmission/keepalive timer callback"},
+		{Fn: "(*stack.linkAddrEntry).changeState", Target: A, Args: []string{"next(range($0.wakers))#1"}, Why: "neighbour resolution (C12)"},
+	})
+
 }
 
 func filterStores(ins []ssa.Instruction, val string) []ssa.Instruction {
